@@ -668,7 +668,13 @@ def run(chk):
             chk.violation("a build-time generated ziggurat table is wrong (the samples cannot follow the stated distribution): " + what, replay, True)
         else:
             # a disagreement between model and library is a broken tie unless it also shows an invalid value
-            chk.violation("T-corr: " + what, replay, "returned the index" in what or "is not exact" in what)
+            # `stdexp` / `geom` are compared with the HAND model Rng/Zig.lean, i.e. with the specification of the slow path (not with
+            # anything regenerated): when in addition a theorem about the regenerated statements of that path no longer checks,
+            # the disagreement at this seed and draw is a failing input, not merely a broken tie
+            spec_path = ("`stdexp`" in what or "`geom`" in what) and tgen_ok and not proved
+            if spec_path:
+                what += " — the library leaves the specified slow path of the exponential ziggurat at this seed / draw, and Props/C16.lean does not check against the regenerated statements of that path"
+            chk.violation("T-corr: " + what, replay, "returned the index" in what or "is not exact" in what or spec_path)
     if not tgen_ok and not chk.violations:
         chk.violation("T-gen broken: tools/gen_rngdist.py cannot translate the current source: %s; the library passes the support scan and "
                       "the statistical tier" % getattr(chk, "tgen_error", ""),
